@@ -21,6 +21,7 @@ class Graph:
         self.init = None
         self.meta = None
         self.ep = {}              # state id -> leaves where a frozen episode is the identity (Manager.tla EpSafe)
+        self.walkpath = {}        # walk emission: edge index -> the edge indices of its walk before it
 
     def intern(self, st):
         key = json.dumps(st, sort_keys=True)
@@ -78,6 +79,45 @@ def path_to(g, sid):
     return p
 
 
+def _plain(v):
+    """tlaval value -> what json.loads(ToJson(v)) gives (sets and sequences as lists, functions / records as dicts)"""
+    if isinstance(v, dict):
+        return {k: _plain(x) for k, x in v.items()}
+    if isinstance(v, (set, frozenset)):
+        return sorted((_plain(x) for x in v), key=lambda x: json.dumps(x, sort_keys=True))
+    if isinstance(v, (list, tuple)):
+        return [_plain(x) for x in v]
+    return v
+
+
+def parse_walk_files(d, banner):
+    """one file per simulated behaviour (TLC -simulate file=...): STATE_n blocks in TLA+ syntax; the edge n -> n+1 is labelled by `last` of state n+1"""
+    import re
+    from . import tlaval
+    g = Graph()
+    for line in banner.splitlines():
+        if line.startswith('"[\\"META'):
+            g.meta = json.loads(json.loads(line))[1]
+    for fn in sorted(os.listdir(d)):
+        txt = open(os.path.join(d, fn)).read()
+        prev, path = None, []
+        for blk in re.split(r"\nSTATE_\d+ == *\n", txt)[1:]:
+            blk = blk.split("\n\n")[0]
+            vs = {m.group(1): _plain(tlaval.parse(m.group(2))) for m in re.finditer(r"/\\ (\w+) = (.*?)(?=\n/\\ |\Z)", blk, re.S)}
+            st = g.intern([vs["mem"], vs["defs"], vs["reg"], vs["kprev"], vs["frozen"], vs["ghost"]])
+            if prev is None:
+                if g.init is None:
+                    g.init = st
+                elif g.init != st:
+                    raise ValueError("walks start in different states")
+            else:
+                g.edges.append((prev, vs["last"], st))
+                g.walkpath[len(g.edges) - 1] = list(path)
+                path.append(len(g.edges) - 1)
+            prev = st
+    return g
+
+
 # ---------------------------------------------------------------------------------------------------------
 # worker
 
@@ -133,7 +173,11 @@ def worker_main(jobfile, shard, nshards):
     samples = []
     queries = job.get("queries", True)
 
-    flavour = [False]
+    flavour = [0]
+    via = [None]          # an explicit path (edge indices) to the source of the edge under replay, instead of the BFS path
+
+    def the_path(sid):
+        return via[0] if via[0] is not None else path_to(g, sid)
 
     def fresh():
         w_ = ml.World(uni, init["mem"], taskspec)
@@ -155,7 +199,7 @@ def worker_main(jobfile, shard, nshards):
         # a step that misbehaves on a manager obtained by pickling / dump+load / copy_expr_from is (also) that transfer's failure:
         # "reacts identically to later assignments", "same contents and consistency under any further sequence"
         hist = set()
-        for i in path_to(g, g.edges[ei][0]):
+        for i in the_path(g.edges[ei][0]):
             pl = g.edges[i][1]
             if pl.get("a") == "Transfer":
                 hist.add("C12" if pl["kind"].startswith("pickle") else "C11")
@@ -166,7 +210,7 @@ def worker_main(jobfile, shard, nshards):
         percat[tuple(tags)] += 1
         if percat[tuple(tags)] <= 40:           # per tag set, so that one frequent kind of failure cannot crowd out another property's
             fails.append({"tags": tags, "summary": summary, "edge": ei, "detail": detail, "known": known,
-                          "path": [g.edges[i][1] for i in path_to(g, g.edges[ei][0])] + [g.edges[ei][1]]})
+                          "path": [g.edges[i][1] for i in the_path(g.edges[ei][0])] + [g.edges[ei][1]]})
         stats["fail"] += 1
         failed_now[0] += 1
     failed_now = [0]
@@ -222,7 +266,7 @@ def worker_main(jobfile, shard, nshards):
     def go_to(src, ei):
         """fresh world driven along the BFS path to src; returns None if the prefix does not conform"""
         w = fresh()
-        for k, pi in enumerate(path_to(g, src)):
+        for k, pi in enumerate(the_path(src)):
             ps, plab, pd = g.edges[pi]
             if epi["cur"] is not None and epi["cur"][0] == k:
                 why, w = episode(w, ps, epi["cur"][1])
@@ -251,7 +295,7 @@ def worker_main(jobfile, shard, nshards):
                 else:
                     stats["prefix_diverged"] += 1       # reported by that edge's own replay
                     return None
-        if epi["cur"] is not None and epi["cur"][0] == len(path_to(g, src)):
+        if epi["cur"] is not None and epi["cur"][0] == len(the_path(src)):
             why, w = episode(w, src, epi["cur"][1])
             if why:
                 fail([ep_tag()], why, ei, {})
@@ -260,7 +304,7 @@ def worker_main(jobfile, shard, nshards):
 
     def process(key):
         eis = groups[key]
-        flavour[0] = (not isinstance(key[0], str)) and (sum(map(ord, key[1])) % 2 == 1)
+        flavour[0] = 0 if isinstance(key[0], str) else sum(map(ord, key[1])) % 3      # Fault / StopIteration-flavoured / KeyError-ValueError-...-flavoured
         s, lab, d = g.edges[eis[0]]
         w = go_to(s, eis[0])
         if w is None:
@@ -296,7 +340,7 @@ def worker_main(jobfile, shard, nshards):
         if lab.get("trig") and epi["cur"] is None:
             stats["nontrivial"] += 1
         if len(samples) < 3 and lab.get("trig"):
-            samples.append({"path": [g.edges[i][1].get("a") for i in path_to(g, s)], "action": {k: v for k, v in lab.items() if k != "idx"},
+            samples.append({"path": [g.edges[i][1].get("a") for i in the_path(s)], "action": {k: v for k, v in lab.items() if k != "idx"},
                             "observed_runs": res["runs"]})
         frozen_ctx = ml.spec_state(g.states[s])["frozen"]
         # ---- exception class ---------------------------------------------------------------
@@ -454,11 +498,51 @@ def worker_main(jobfile, shard, nshards):
             if s_ == d_ and lab_.get("a") in ("Transfer", "Stutter") and lab_.get("exc", "none") == "none" and (s_, lab_.get("kind")) not in seen_:
                 seen_.add((s_, lab_.get("kind")))
                 selfloops[s_].append({k: v for k, v in lab_.items() if k in ("a", "kind")})
+    # all-paths mode: the BFS tree reaches each state along ONE (shortest) path, but what a manager does may depend on how its state
+    # came about (edges left behind by an earlier definition, caches, counters).  For the small universes every edge is also replayed
+    # from every OTHER path of at most `allpaths` steps to its source (sampled down to `allpaths_cap` per edge).
+    allpaths = job.get("allpaths", 0)
+    inedges = collections.defaultdict(list)
+    if allpaths:
+        for i_, (s_, lab_, d_) in enumerate(g.edges):
+            if s_ != d_ and lab_.get("exc", "none") in ("none", "Fault") and not lab_.get("cyc"):
+                inedges[d_].append(i_)
+
+    def alt_paths(src, bfs):
+        out, cap = [], job.get("allpaths_cap", 60)
+
+        def back(sid, suffix):
+            if len(out) >= 4 * cap:
+                return
+            if sid == g.init and suffix:
+                if suffix != bfs:
+                    out.append(list(suffix))
+            if len(suffix) >= allpaths:
+                return
+            for i_ in inedges.get(sid, ()):
+                back(g.edges[i_][0], [i_] + suffix)
+        back(src, [])
+        if len(out) > cap:
+            out = erng.sample(out, cap)
+        return out
+
     for key in todo:
         epi["cur"] = None
         failed_now[0] = 0
+        if g.walkpath:
+            via[0] = g.walkpath.get(groups[key][0])
         process(key)
-        if not (nep or nloops) or failed_now[0] or not isinstance(key[0], str):
+        via[0] = None
+        if allpaths and not failed_now[0]:
+            src_ = g.edges[groups[key][0]][0]
+            for ap in alt_paths(src_, path_to(g, src_)):
+                via[0] = ap
+                stats["alt_path_replays"] += 1
+                process(key)
+                if failed_now[0]:
+                    break
+            via[0] = None
+        if not (nep or nloops) or failed_now[0] or not isinstance(key[0], str) or g.walkpath:
             continue        # inserted calls only on plain (non-fault) edges that conformed without them
         ei = groups[key][0]
         src = g.edges[ei][0]
@@ -486,10 +570,12 @@ def worker_main(jobfile, shard, nshards):
 # ---------------------------------------------------------------------------------------------------------
 # main-process side
 
-def run_replay(g, universe, keys, scratch, mode, hashseeds, nshards, queries=True, timeout=3600, fan_keep=1.0, seed=0, episodes=0, digest=None, loops=(), nloops=0):
+def run_replay(g, universe, keys, scratch, mode, hashseeds, nshards, queries=True, timeout=3600, fan_keep=1.0, seed=0, episodes=0, digest=None, loops=(), nloops=0,
+               allpaths=0, allpaths_cap=60):
     """-> (fails, stats, samples) aggregated over hash seeds and shards; digest: dict filled with {(mode, hashseed): {edge: transcript digest}}"""
     job = {"graph": g, "universe": universe, "keys": keys, "scratch": scratch, "mode": mode, "queries": queries,
-           "fan_keep": fan_keep, "seed": seed, "episodes": episodes, "digest": digest is not None, "loops": list(loops), "nloops": nloops}
+           "fan_keep": fan_keep, "seed": seed, "episodes": episodes, "digest": digest is not None, "loops": list(loops), "nloops": nloops,
+           "allpaths": allpaths, "allpaths_cap": allpaths_cap}
     fd, jobfile = tempfile.mkstemp(prefix="xdv-job-", suffix=".pickle")
     with os.fdopen(fd, "wb") as fh:
         pickle.dump(job, fh)
